@@ -697,11 +697,12 @@ func init() {
 	register(&Property{
 		ID:          "C05",
 		Level:       "other",
-		Explanation: "Decides the structural necessary conditions of exactly-once, in-order delivery on every path of the downloader and driver code: C05-conflate — a nil result of the range fetch (which Download treats as 'no events' and moves its cursor past) is returned only under cancellation (known finding: the max-hash-mismatch-retries return); C05-group — a block is created for a log only after the header fetched for that log's number had the log's block hash, with fields from that log/header, and removed / foreign-topic logs are dropped before grouping; C05-retry — the driver leaves handleNewBlock only after a successful ProcessBlock, a cancellation or ErrInconsistentState, so an ordinary error loops back to the same block (boolean-flag loops are handled path-sensitively); C05-restart — Sync starts the download at GetLastProcessedBlock()+1 of a successful call and re-reads it after every reorg; C05-cursor — the lower bound of every range fetch in EVMDownloader.Download is the loop-carried cursor (start parameter, or previous upper bound / last delivered block / finalized clamp + 1), never a freshly observed tip. The range arithmetic (chunk size × finality × tip movement covering every block exactly once) is value-level and is not decided. Added after the sub-agent rounds: C05-lastblock (the resume point is the greatest recorded block), C05-bootstrap (a fresh store is primed with the block before the configured first block, with that block's hash, only when behind it), C05-watch (each downloader is built with the literal list of its contract addresses and the log filter carries it). Added after round 7: C05-claim-once (shared with C20-error), C05-gercursor (shared with C16-cursor), C05-feed (block position from the log index, shared with C11-feed), and a failed appender is always retried for the same log.",
+		Explanation: "Decides the structural necessary conditions of exactly-once, in-order delivery on every path of the downloader and driver code: C05-conflate — a nil result of the range fetch (which Download treats as 'no events' and moves its cursor past) is returned only under cancellation (known finding: the max-hash-mismatch-retries return); C05-group — a block is created for a log only after the header fetched for that log's number had the log's block hash, with fields from that log/header, and removed / foreign-topic logs are dropped before grouping; C05-retry — the driver leaves handleNewBlock only after a successful ProcessBlock, a cancellation or ErrInconsistentState, so an ordinary error loops back to the same block (boolean-flag loops are handled path-sensitively); C05-restart — Sync starts the download at GetLastProcessedBlock()+1 of a successful call and re-reads it after every reorg; C05-cursor — the lower bound of every range fetch in EVMDownloader.Download is the loop-carried cursor (start parameter, or previous upper bound / last delivered block / finalized clamp + 1), never a freshly observed tip. The range arithmetic (chunk size × finality × tip movement covering every block exactly once) is value-level and is not decided. Added after the sub-agent rounds: C05-lastblock (the resume point is the greatest recorded block), C05-bootstrap (a fresh store is primed with the block before the configured first block, with that block's hash, only when behind it), C05-watch (each downloader is built with the literal list of its contract addresses and the log filter carries it). Added after round 7: C05-claim-once (shared with C20-error), C05-gercursor (shared with C16-cursor), C05-feed (block position from the log index, shared with C11-feed), and a failed appender is always retried for the same log. Added after round 8: C05-stop (shared with C07-stop).",
 		Rules: []Rule{
 			{ID: "C05-claim-once", Floor: 6, Run: shared("C05-claim-once", c20Error), Text: "(shared with C20-error) a claim is appended to the block only after its fallible calldata lookup succeeded (a retried appender would otherwise deliver it twice)"},
 			{ID: "C05-gercursor", Floor: 1, Run: shared("C05-gercursor", c16Cursor), Text: "(shared with C16-cursor) the last-GER downloader advances its cursor to the end of the chunk it fetched"},
 			{ID: "C05-feed", Floor: 40, Run: shared("C05-feed", c11Feed), Text: "(shared with C11-feed) every stored event takes its block position from the log index"},
+			{ID: "C05-stop", Floor: 2, Run: shared("C05-stop", c07Stop), Text: "(shared with C07-stop/C14-stop) a halted processor accepts no block, with or without events: the last-processed marker never passes a block whose events were not stored"},
 			{ID: "C05-conflate", Floor: 4, Run: c05Conflate, Text: "[DOM] nil result of the fetch only on cancellation edges"},
 			{ID: "C05-group", Floor: 5, Run: c05Group, Text: "[DOM]+[PROV] EVMBlock creation dominated by header.Hash == log.BlockHash; Removed/topic filters"},
 			{ID: "C05-retry", Floor: 2, Run: c05Retry, Text: "[DOM]+flag threading: handleNewBlock returns only after success / cancel / ErrInconsistentState"},
